@@ -182,12 +182,11 @@ func H18b1_twin() {
 	}
 }
 
-func hIsPcharNoEscape(c byte) bool {
-	// RFC 3986 pchar without pct-encoded: unreserved / sub-delims / ":" / "@"
-	return (c >= 'a' && c <= 'z') || (c >= 'A' && c <= 'Z') || (c >= '0' && c <= '9') || c == '-' || c == '.' || c == '_' || hIsSpecial(c)
-}
-
-func hURLString(segByte func(c byte) bool) string {
+// hURLString: "https://" host [ ":" port ] *( "/" segment ). A segment byte is either one of the special
+// characters (sub-delims, ':', '@', '~' - drawn concretely: a symbolic special byte makes percentEncodeString
+// index its hex table symbolically and every later query ~100x slower), or a symbolic byte that is not special
+// and satisfies `other`. A second segment, if any, is the literal "x".
+func hURLString(other func(c byte) bool) string {
 	s := "https://a" + hIDChars(vLen(0, vParam("host", 1)))
 	if vBool() {
 		vCover("port")
@@ -195,11 +194,27 @@ func hURLString(segByte func(c byte) bool) string {
 	}
 	ns := vLen(0, vParam("segs", 2))
 	for i := 0; i < ns; i++ {
+		if i > 0 {
+			s += "/x"
+			continue
+		}
 		n := vLen(1, vParam("seglen", 2))
-		vTag("segment")
-		seg := vString(n)
+		seg := ""
 		for j := 0; j < n; j++ {
-			vAssume(segByte(seg[j]))
+			if vBool() {
+				nsp := vParam("specials", len(hSpecials))
+				if nsp > len(hSpecials) {
+					nsp = len(hSpecials)
+				}
+				k := vChoice(nsp)
+				seg += hSpecials[k : k+1]
+				vCover("special-byte")
+			} else {
+				vTag("segbyte")
+				c := vString(1)
+				vAssume(!hIsSpecial(c[0]) && other(c[0]))
+				seg += c
+			}
 		}
 		s += "/" + seg
 	}
@@ -212,7 +227,7 @@ func hURLString(segByte func(c byte) bool) string {
 // H18b2: URL -> id -> URL on https URLs with a domain name, optional port and path segments made of RFC 3986
 // pchar without escapes (hence free of '?', '#', '%').
 func H18b2() {
-	s := hURLString(hIsPcharNoEscape)
+	s := hURLString(hIsIDChar) // pchar without escapes = idchar + special characters
 	u, err := url.Parse(s)
 	vAssert(err == nil, "H18b2.grammar_url_parses: net/url refuses a URL of the grammar")
 	if err != nil {
